@@ -9,10 +9,10 @@ import json
 ALTS = '{"g", "f", "s", "m"}'
 
 
-def mc_cfg(minl, maxl, calls, alts, dups):
-    return ("SPECIFICATION Spec\nCONSTANTS\n  MinLeaves = %d\n  MaxLeaves = %d\n  MaxCalls = %d\n  Alts = %s\n  Dups = %s\n"
+def mc_cfg(advmin, advmax, advcalls, dupsmall, ordmax, ordcalls):
+    return ("SPECIFICATION Spec\nCONSTANTS\n  AdvMin = %d\n  AdvMax = %d\n  AdvCalls = %d\n  DupSmallMax = %d\n  OrdMax = %d\n  OrdCalls = %d\n"
             "INVARIANT C35_Sound\nINVARIANT NeededOK\nPROPERTY C35_Rollback\nPROPERTY C35_Complete\n"
-            "PROPERTY C35_Monotone\nPROPERTY C35_Remembers\nCHECK_DEADLOCK FALSE\n" % (minl, maxl, calls, alts, dups))
+            "PROPERTY C35_Monotone\nPROPERTY C35_Remembers\nCHECK_DEADLOCK FALSE\n" % (advmin, advmax, advcalls, dupsmall, ordmax, ordcalls))
 
 
 def gen_cfg(minl, maxl, full, dsmall, dlarge):
@@ -43,14 +43,15 @@ def run(ctx):
     ctx.assumptions += ["TLC and the CommunityModules", "distinct hash terms are distinct hashes (collision freedom of SHA-256d tagged hashes)",
                         "the driver's mapping between hash terms and real hashes (harness/hashtree_driver.py: World.dec/enc)"]
     # ---- MC ----
-    runs = ([(1, 3, 2, ALTS, '{"no", "diff"}'), (4, 4, 2, ALTS, '{"no"}'), (1, 8, 3, '{"g", "m"}', '{"no"}')] if q else
-            [(1, 4, 2, ALTS, '{"no", "same", "diff"}'), (5, 8, 2, ALTS, '{"no"}'), (1, 8, 8, '{"g", "m"}', '{"no"}'),
-             (1, 4, 3, ALTS, '{"no"}')])
-    for (a, b, calls, alts, dups) in runs:
-        ctx.constants["MC_%d_%d_calls%d" % (a, b, calls)] = {"MinLeaves": a, "MaxLeaves": b, "MaxCalls": calls, "Alts": alts, "Dups": dups}
+    # (AdvMin, AdvMax, AdvCalls, DupSmallMax, OrdMax, OrdCalls): adversarial calls on AdvMin..AdvMax leaves (all three ways of
+    # passing the leaf hash up to DupSmallMax leaves) and validation orders of OrdCalls leaves on 1..OrdMax leaves, in one TLC run
+    runs = [(1, 4, 2, 3, 8, 3)] if q else [(1, 8, 2, 4, 8, 8), (1, 4, 3, 0, 1, 1)]
+    for (a, b, calls, dsm, om, oc) in runs:
+        ctx.constants["MC_adv%d_%d_calls%d" % (a, b, calls)] = {"AdvMin": a, "AdvMax": b, "AdvCalls": calls, "DupSmallMax": dsm,
+                                                              "OrdMax": om, "OrdCalls": oc}
         # -coverage is switched off: with the recursive operators it doubles the run time
-        ctx.mc("util/MCHashTree", mc_cfg(a, b, calls, alts, dups), name="MC hashtree n=%d..%d calls=%d" % (a, b, calls), timeout=3000,
-               coverage=False)
+        ctx.mc("util/MCHashTree", mc_cfg(a, b, calls, dsm, om, oc), name="MC hashtree adv n=%d..%d x%d, orders n<=%d x%d" % (a, b, calls, om, oc),
+               timeout=3000, coverage=False)
     # ---- GEN + replay ----
     gmax, full = (4, 2) if q else (8, 2)
     ctx.constants["GEN"] = {"MinLeaves": 1, "MaxLeaves": gmax, "FullPairsMax": full}
